@@ -81,7 +81,7 @@ private theorem pick_inv (cs : List (Str × Int)) (acc : Option (Str × Int)) :
 theorem chooseRedirect_eq (matched : List Rule) :
     chooseRedirect matched = ((redirectCands matched).foldl pickStep none).map (·.1) := by
   unfold chooseRedirect redirectCands
-  simp only [List.foldl_map]
+  simp only [List.filter_map, List.foldl_map]
   congr 1
 
 /-- **sound**: the chosen resource is named by a matching, unexcepted redirect option whose
